@@ -207,8 +207,8 @@ type tierCfg struct {
 func tierFor(prop, tier string) tierCfg {
 	q := map[string]tierCfg{}
 	t := map[string]tierCfg{}
-	def := tierCfg{Runs: 1600, WallS: 40}
-	defT := tierCfg{Runs: 120000, WallS: 600}
+	def := tierCfg{Runs: 16000, WallS: 45}
+	defT := tierCfg{Runs: 2000000, WallS: 900}
 	if tier == "thorough" {
 		if c, ok := t[prop]; ok {
 			return c
